@@ -25,15 +25,16 @@ def fr(x):
     return Fr(x)          # exact for floats and ints
 
 
-def qsqrt(q: Fr, bits=140) -> Fr:
-    """Rational n > 0 with |n^2 - q| <= q * 2^-100 (witness for an irrational square root)."""
+def qsqrt(q: Fr, bits=66) -> Fr:
+    """Rational n = 2^k / m > 0 with |n^2 - q| <= q * 2^-60: witness for an (in general irrational) square
+    root.  The power-of-two NUMERATOR keeps v / n dyadic for dyadic v, which keeps the numbers that Coq has
+    to reduce small (the model divides by norms far more often than it multiplies by them)."""
     q = Fr(q)
     assert q > 0
-    sh = 2 * bits + max(0, q.denominator.bit_length() - q.numerator.bit_length() + 8)
-    sh += sh % 2
-    n = math.isqrt((q.numerator << sh) // q.denominator)
-    r = Fr(n, 1 << (sh // 2))
-    assert abs(r * r - q) <= q / (1 << 100)
+    k = bits + max(0, (q.numerator.bit_length() - q.denominator.bit_length()) // 2 + 2)
+    m = math.isqrt(((1 << (2 * k)) * q.denominator) // q.numerator)
+    r = Fr(1 << k, m)
+    assert abs(r * r - q) <= q / (1 << 60), (q, r)
     return r
 
 
@@ -771,7 +772,7 @@ def run(ctx, rep):
     rep.rule = ("a case = one call of the implementation on exact rational input; non-trivial when it produced an observation that "
                 "was compared with the model inside Coq (degenerate/threshold-ambiguous inputs are counted but not compared); "
                 "distinct by input")
-    rep.trusted += ["harness/c11.py: generators, float -> exact rational encoding (Fraction(float)), 2^-100 square-root witnesses "
+    rep.trusted += ["harness/c11.py: generators, float -> exact rational encoding (Fraction(float)), 2^-60 square-root witnesses "
                     "(checked again inside Coq), recording wrapper around np.random.rand and around the alignment callback",
                     "CPython/numpy executing molli (array arithmetic, IEEE rounding, np.random, math.sin/cos/atan2)",
                     "reference Kabsch callback (numpy SVD) used to exercise align_to_ref_coords: its contract is a Section hypothesis"]
